@@ -68,7 +68,7 @@ def _no_mutating_iteration(p: Path, muts: Tuple[str, ...]) -> bool:
         for bp in l.paths:
             if bp.exit[0] == "raise" or not any(x.kind == "call" and _mutating(x, muts) for x in bp.events):
                 continue
-            apps = {x.recv for x in bp.events if x.kind == "call" and x.name == "append" and x.recv is not None and x.recv[0] == "sym"}
+            apps = {strip_ver(x.recv) for x in bp.events if x.kind == "call" and x.name == "append" and x.recv is not None and strip_ver(x.recv)[0] in ("sym", "list")}
             companions = apps if companions is None else (companions & apps)
     if not companions:
         return False
